@@ -2,6 +2,7 @@
 // Shared plumbing of the harnesses: argument parsing, result/evidence accumulation, violations with replay files,
 // deadlines, fork isolation.  Plain C++17, no dependency on the repository.
 #include <sys/stat.h>
+#include <ctime>
 #include <unistd.h>
 #include <string>
 #include <vector>
@@ -192,14 +193,17 @@ inline ForkOut run_forked(const std::function<void(char* buf, size_t cap)>& fn, 
 // progress marker: the replay body of the case about to be executed, kept in shared memory so that it survives a crash of the child
 inline char*& progress_shm() { static char* p = nullptr; return p; }
 static const size_t PROGRESS_CAP = 1 << 20;
-inline void progress(const std::string& replay_body) { char* p = progress_shm(); if (!p) return; size_t n = std::min(replay_body.size(), PROGRESS_CAP - 1); memcpy(p, replay_body.data(), n); p[n] = 0; }
+inline std::string& progress_file() { static std::string f; return f; }
+inline void progress(const std::string& replay_body) { char* p = progress_shm(); if (!p) return; size_t n = std::min(replay_body.size(), PROGRESS_CAP - 1); memcpy(p, replay_body.data(), n); p[n] = 0;
+    // at most once a second the note also goes to <out>.progress, so that the driver can say WHERE a harness was when it had to be stopped
+    static time_t last = 0; time_t now = time(nullptr); if (now != last && !progress_file().empty()) { last = now; FILE* f = fopen(progress_file().c_str(), "w"); if (f) { fwrite(replay_body.data(), 1, n, f); fclose(f); } } }
 
 // optional: called in the reporting parent when the exploring child died, before the result is written (e.g. to collect sanitizer logs)
 inline std::function<void(Result&)>& on_child_crash() { static std::function<void(Result&)> f; return f; }
 inline int run_main(int argc, char** argv, const std::string& property, const std::function<void(Result&)>& explore,
                     const std::function<int(const Replay&, Result&)>& replay) {
     Args a = parse_args(argc, argv);
-    Result R; R.property = property; R.args = a;
+    Result R; R.property = property; R.args = a; if (!a.out.empty()) progress_file() = a.out + ".progress";
     if (!a.replay.empty()) {
         Replay rp; if (!rp.load(a.replay)) { fprintf(stderr, "cannot read replay file %s\n", a.replay.c_str()); return 2; }
         int rc = replay(rp, R);
